@@ -97,12 +97,27 @@ where
             }
         }
 
+        // Copies are wrapped into one cell, so an image n cells away along a lattice vector is at
+        // least (n - 1) cell heights away: with a finite range of the potential this gives the
+        // number of neighbouring cells which can contribute, never fewer than three. In a cell
+        // so flat that more than MAX_SHELLS would be needed every particle sits within a sixteenth
+        // of the range of its own images, whose r^-12 repulsion exceeds everything further out
+        // by some ten orders of magnitude, so the search (and its cost) stops there.
+        const MAX_SHELLS: i64 = 16;
+        let periodic_range = match self.shape.interaction_range() {
+            Some(range) => {
+                let height = f64::min(self.cell.a(), self.cell.b()) * self.cell.angle().sin();
+                // (a NaN or infinite quotient saturates in the cast and is clamped like any other)
+                i64::min(MAX_SHELLS, i64::max(3, (range / height).ceil() as i64))
+            }
+            None => 3,
+        };
         // Compare in periodic cells
         for shape1 in self.cartesian_positions().map(|p| self.shape.transform(&p)) {
             for position in self.relative_positions() {
                 for shape2 in self
                     .cell
-                    .periodic_images(position, 3, false)
+                    .periodic_images(position, periodic_range, false)
                     .map(|p| self.shape.transform(&p))
                 {
                     // Every pair of a molecule and an image is met twice in this loop, once
